@@ -587,7 +587,9 @@ def _append_nans(result, axis, first=False):
     """
     if result.dtype.kind in ('i', 'u', 'b'):
         result = result.astype(float) # integers have no NaN
-    nan_slice = np.empty_like(result.take([0], axis=axis)) # make a slice ...
+    shape = list(result.shape)
+    shape[axis] = 1 # (result may be empty along axis: do not take a slice from it)
+    nan_slice = np.empty(shape, dtype=result.dtype) # make a slice ...
     nan_slice.fill(np.nan) # ...filled with NaNs
 
     # Insert as first element
